@@ -571,7 +571,7 @@ def check(rep, prog, tier):
     r03_6(rep, prog)
     r03_7(rep, prog)
     from . import chanstate
-    chanstate.check(rep, 'R03.8', prog, 'celt_decode_with_ec_dred', '')
+    chanstate.check(rep, 'R03.8', prog, 'celt_decode_with_ec_dred', 'two')
     rep.extra['programs'] = rep.extra.get('programs', 0) + cmp_.n
     rep.extra['disagreements_checked'] = rep.extra.get('disagreements_checked', 0) + cmp_.bad
     rep.extra.setdefault('translation_samples', []).extend(cmp_.samples if prog.config == 'float' else [])
